@@ -834,7 +834,9 @@ func ThrottleTime[T any](interval time.Duration) func(Observable[T]) Observable[
 
 	return func(source Observable[T]) Observable[T] {
 		return NewObservableWithContext(func(subscriberCtx context.Context, destination Observer[T]) Teardown {
-			lastAt := int64(0)
+			// The first value always passes: the origin of the monotonic clock is arbitrary
+			// (process start), it is not a point in time to measure the interval from.
+			lastAt := xtime.NowNanoMonotonic() - intervalNano - 1
 
 			sub := source.SubscribeWithContext(
 				subscriberCtx,
